@@ -1,1 +1,44 @@
+import PQ.Lemmas.Thrift
+import PQ.Props.C07
 import PQ.Model.Spec
+import PQ.Lemmas.PageRT
+import PQ.Props.C06
+/-!
+# C02 — every written file is structurally valid Parquet with a truthful footer
+
+Carried so far by theorems over the model: the thrift layer (footer and page headers decode to
+what was encoded; a truncated struct never decodes; every emitted byte is a byte), the level
+sections (well-formed hybrid streams with exact length prefix), and — in `PQ/Props/C06.lean` — the
+layout of the sink stream (offsets and sizes recorded in the footer equal the positions and
+lengths of the bytes written).  The statement `parseFile (fileBytes (runWriter …)) = ok …` for all
+histories is **not yet a single theorem**; `PQ.parseFile` is evaluated on every file the
+implementation writes on every run, and the model writer's bytes equal the implementation's.
+-/
+namespace PQ.C02
+
+/-- the footer / page headers are decodable exactly (independent thrift reader) -/
+theorem thrift_decodes (v : PQ.Thrift.TVal) (h : v.WF) (fuel : Nat) (rest : Bytes) (hf : v.size ≤ fuel) :
+    PQ.Thrift.decVal v.ecode fuel (v.enc ++ rest) = some (v, rest) :=
+  PQ.Thrift.decVal_enc v h fuel rest hf
+
+/-- every byte of an encoded thrift value is < 256 -/
+theorem thrift_bytes (v : PQ.Thrift.TVal) (h : v.WF') : ∀ b ∈ v.enc, b < 256 :=
+  PQ.Thrift.enc_bytes_lt v h
+
+/-- level sections have an exact length prefix and decode (specification decoder) to the levels -/
+theorem level_section_valid (w : Nat) (hw : 1 ≤ w ∧ w ≤ 4) (xs : List Nat) (hx : ∀ x ∈ xs, x < 2 ^ w)
+    (hlen : xs.length + 8 ≤ 2 ^ 30) :
+    ∃ pad, pad < 8 ∧ specDecode w (encode w xs) = some (xs ++ List.replicate pad 0, (encode w xs).length) :=
+  PQ.C07.spec_decode_encode w hw xs hx hlen
+
+/-- each data page's level and value sections have exactly the lengths its header implies: the
+independent page parser accepts the page as written and recovers its entries -/
+theorem page_valid (dc : Decomp) (k : Codec) (codec : Int) (c : Col) (es : PageEntries) (hwf : WFPage c es)
+    (hk : CodecOK dc k codec (pagePayload c es)) (pre rest : Bytes) :
+    specPage dc c codec (pre ++ (pageBytes k c es).1 ++ (pageBytes k c es).2 ++ rest) pre.length =
+      .ok { numValues := es.length, entries := es, headerLen := (pageBytes k c es).1.length,
+            compressedLen := (pageBytes k c es).2.length, uncompressedLen := (pagePayload c es).length,
+            stats := some (pageStatsFields c es) } :=
+  PQ.specPage_pageBytes_codec dc k codec c es hwf hk pre rest
+
+end PQ.C02
